@@ -38,7 +38,7 @@ Proof.
             end) sc1 body = ROk (own_props body)) as Hgo.
   { clear Hne. induction Hd as [|c r Hc Hr IH]; intros sc1; [reflexivity|].
     destruct c as [nm v i| | | |]; try contradiction.
-    cbn [eval_node]. rewrite preprocess_plain by assumption. unfold value_fuel. rewrite eval_value_plain by assumption.
+    cbn [eval_node]. rewrite preprocess_plain by assumption. rewrite eval_value_plain_vf by assumption.
     cbn [rbind]. rewrite IH. reflexivity. }
   rewrite Hgo. cbn [rbind].
   assert (filter (fun o => negb (obj_is_block o)) (own_props body) = own_props body /\ filter obj_is_block (own_props body) = []) as [-> ->].
